@@ -162,22 +162,24 @@ COQ_HEAD = ("Require Import List NArith Bool.\nImport ListNotations.\n"
 def coq_text_cases(ctx, strings):
     """For every string: (valid_utf8_no_nul, plain_safe, emitted text for the style
     _vnaproperty_yaml_export requests, parsed style plain?, parse_scalar (emit) gives the string back?)
-    computed by the Coq definitions.  One vm_compute; the result is flattened to numbers."""
+    computed by the Coq definitions.  One vm_compute per chunk of strings; the results are flattened to numbers."""
     body = COQ_HEAD + (
         "Definition b2n (b : bool) : N := if b then 1 else 0.\n"
         "Definition one (v : bytes) : list N :=\n"
         "  let st := scalar_style v in let t := emit_scalar v st in\n"
         "  [b2n (valid_utf8_no_nul v); b2n (plain_safe v);\n"
         "   match parse_scalar t with Some (v', YPlain) => b2n (bytes_eqb v v') | Some (v', _) => 2 * b2n (bytes_eqb v v') | None => 9 end;\n"
-        "   N.of_nat (length t)] ++ t.\n"
-        "Eval vm_compute in (flat_map one [%s]).\n" % ";\n".join(coq_list(s) for s in strings))
+        "   N.of_nat (length t)] ++ t.\n")
+    CH = 300                                              # one Eval per chunk: a huge list literal overflows coqc's stack
+    for k in range(0, len(strings), CH):
+        body += "Eval vm_compute in (flat_map one [%s]).\n" % ";\n".join(coq_list(s) for s in strings[k:k + CH])
     rc, out, err = ctx.coq_eval("c14_text_cases", body, timeout=900)
     if rc != 0:
         raise RuntimeError("coq_eval c14_text_cases failed: " + (err or out)[-800:])
-    m = re.search(r"=\s*\[(.*?)\]\s*:\s*list N", out, re.S)
-    if not m:
+    parts = re.findall(r"=\s*\[(.*?)\]\s*:\s*list N", out, re.S)
+    if len(parts) != (len(strings) + CH - 1) // CH:
         raise RuntimeError("coq_eval c14_text_cases: unexpected output " + out[-300:])
-    nums = [int(x) for x in re.findall(r"\d+", m.group(1))]
+    nums = [int(x) for p_ in parts for x in re.findall(r"\d+", p_)]
     res, i = [], 0
     for _ in strings:
         valid, safe, back, n = nums[i:i + 4]
